@@ -199,6 +199,9 @@ func isNilAny(x any) bool {
 // callM calls an exported method by name on (the address of) v and returns its results.
 func callM(v reflect.Value, name string, args ...reflect.Value) []reflect.Value {
 	recv := v
+	for recv.Kind() == reflect.Interface && !recv.IsNil() {
+		recv = recv.Elem()
+	}
 	if recv.Kind() != reflect.Pointer && recv.CanAddr() {
 		recv = recv.Addr()
 	}
@@ -211,6 +214,9 @@ func callM(v reflect.Value, name string, args ...reflect.Value) []reflect.Value 
 
 func hasMethod(v reflect.Value, name string) bool {
 	recv := v
+	for recv.Kind() == reflect.Interface && !recv.IsNil() {
+		recv = recv.Elem()
+	}
 	if recv.Kind() != reflect.Pointer && recv.CanAddr() {
 		recv = recv.Addr()
 	}
